@@ -541,6 +541,7 @@ class _Grounder:
         self.skolems = []
         self.ninst = 0
         self.done = set()
+        self._alive = []      # expressions whose ids are recorded below: kept alive so that z3 cannot recycle the ids
         self.recgen = {}
         self.recapps = []            # not yet unfolded applications of recurrence functions
         self.apps_by_fun = {}
@@ -765,6 +766,7 @@ class _Grounder:
             if g >= self.unfold_depth:
                 continue
             self.done.add(e.get_id())
+            self._alive.append(e)
             facts = rf.unfold(e)
             for f in facts:
                 for e2 in _subterms(f):
@@ -772,6 +774,7 @@ class _Grounder:
                             and e2.decl().name() in RecFun.registry and e2.get_id() not in self.recgen \
                             and e2.get_id() != e.get_id():
                         self.recgen[e2.get_id()] = g + 1
+                        self._alive.append(e2)
             self.recgen.setdefault(e.get_id(), g)
             for f in facts:
                 new.append((f, f, 1))
